@@ -21,18 +21,18 @@ Definition injective2 (shf : bool -> N -> N) : Prop :=
   forall b i b' i', shf b i = shf b' i' -> b = b' /\ i = i'.
 
 (* every reachable state satisfies the invariant the statements below are phrased with *)
-Theorem C12_reachable_inv : forall shf, injective2 shf -> forall gap maxun g,
+Theorem C12_reachable_inv : forall shf, injective2 shf -> forall fx gap maxun g,
   b_height g = 0%Z -> forall evs,
-  run_ok shf gap maxun (rinit g) evs -> Inv shf (rrun shf gap maxun g evs).
+  run_ok shf fx gap maxun (rinit g) evs -> Inv shf (rrun shf fx gap maxun g evs).
 Proof. exact reachable_Inv. Qed.
 Print Assumptions C12_reachable_inv.
 
 (* ... and so does a wallet restored from the mnemonic or a keystore file (any hints) *)
-Theorem C12_restored_inv : forall shf gap fuel hint_e hint_i g rest w',
+Theorem C12_restored_inv : forall shf fx gap fuel hint_e hint_i g rest w',
   b_height g = 0%Z -> b_txs g = [] -> heights_ok (g :: rest) ->
   wal_restore shf fuel gap hint_e hint_i (g :: rest) = Some w' ->
   Inv shf {| r_wal := w'; r_chain := g :: rest; r_issued := [] |} /\
-  (hint_i = 0 -> ExtInv {| r_wal := w'; r_chain := g :: rest; r_issued := [] |}).
+  (fx = true \/ hint_i = 0 -> ExtInv fx {| r_wal := w'; r_chain := g :: rest; r_issued := [] |}).
 Proof. exact restore_Inv. Qed.
 Print Assumptions C12_restored_inv.
 
@@ -41,10 +41,10 @@ Print Assumptions C12_restored_inv.
    the keystore); afterwards it is in the keystore, the counter has advanced by one, the address
    is listed with the used flag clear; a restart reads back the same counter, keys and records *)
 Theorem C12_fresh_next : forall shf, injective2 shf ->
-  forall gap s used cls a w',
+  forall fx gap s used cls a w',
   Inv shf s ->
   pays_any (r_chain s) (shf false (ks_next_e (w_ks (r_wal s)))) = false ->
-  new_address shf gap used cls (r_wal s) = KOk (a, w') ->
+  new_address shf fx gap used cls (r_wal s) = KOk (a, w') ->
   a = (cls, ks_next_e (w_ks (r_wal s))) /\
   ~ In (false, snd a) (ks_pubs (w_ks (r_wal s))) /\
   mine_of shf (w_ks (r_wal s)) (shf false (snd a)) = false /\
@@ -60,8 +60,8 @@ Print Assumptions C12_fresh_next.
 
 (* over a whole history (requests through NewAddress or the API, chain movements, restarts):
    the indexes handed out are strictly increasing, hence never repeated *)
-Theorem C12_issued_in_order : forall shf gap maxun g evs,
-  let s := rrun shf gap maxun g evs in
+Theorem C12_issued_in_order : forall shf fx gap maxun g evs,
+  let s := rrun shf fx gap maxun g evs in
   decr (r_issued s) (ks_next_e (w_ks (r_wal s))) /\ NoDup (map snd (r_issued s)).
 Proof. exact issued_in_order. Qed.
 Print Assumptions C12_issued_in_order.
@@ -69,14 +69,14 @@ Print Assumptions C12_issued_in_order.
 (* an address that has its record stays listed by every further event, except a chain movement
    that disconnects the block whose height the record carries — the block of its first payment
    (guard [loses]); with that guard violated the statement is false: next theorem *)
-Theorem C12_listed_from_then_on : forall shf, injective2 shf -> forall gap maxun g,
+Theorem C12_listed_from_then_on : forall shf, injective2 shf -> forall fx gap maxun g,
   b_height g = 0%Z ->
   forall evs e stk sh,
-  run_ok shf gap maxun (rinit g) (evs ++ [e]) ->
-  let s := rrun shf gap maxun g evs in
+  run_ok shf fx gap maxun (rinit g) (evs ++ [e]) ->
+  let s := rrun shf fx gap maxun g evs in
   rec_get (w_recs (r_wal s)) stk sh <> None ->
   ~ loses s e stk sh ->
-  let s' := rstep shf gap maxun s e in
+  let s' := rstep shf fx gap maxun s e in
   rec_get (w_recs (r_wal s')) stk sh <> None /\ listed (w_recs (r_wal s')) stk sh = true.
 Proof. exact listed_from_then_on. Qed.
 Print Assumptions C12_listed_from_then_on.
@@ -85,12 +85,12 @@ Print Assumptions C12_listed_from_then_on.
    together with the block of the first payment; the issued address is then unpaid and not listed *)
 Theorem C12_listed_refuted_after_reorg :
   exists gap evs,
-    run_ok shf0 gap 1 (rinit wg) evs /\
-    let s := run_from shf0 gap 1 (rinit wg) evs in
+    run_ok shf0 true gap 1 (rinit wg) evs /\
+    let s := run_from shf0 true gap 1 (rinit wg) evs in
     r_issued s = [(false, 0)] /\
     listed (w_recs (r_wal s)) false (shf0 false 0) = false /\
     pays_any (r_chain s) (shf0 false 0) = false /\
-    let s1 := run_from shf0 gap 1 (rinit wg) (firstn 2 evs) in
+    let s1 := run_from shf0 true gap 1 (rinit wg) (firstn 2 evs) in
     listed (w_recs (r_wal s1)) false (shf0 false 0) = true /\
     rec_used (w_recs (r_wal s1)) false (shf0 false 0) = true.
 Proof. exact listed_refuted_after_reorg. Qed.
@@ -99,22 +99,22 @@ Print Assumptions C12_listed_refuted_after_reorg.
 (* the used flag of every listed entry, after any history, through reorganisations: a staking
    entry is flagged exactly when the processed chain has a staking output to its script hash, a
    standard entry exactly when the chain pays its script hash in any form *)
-Theorem C12_used_flag : forall shf, injective2 shf -> forall gap maxun g,
+Theorem C12_used_flag : forall shf, injective2 shf -> forall fx gap maxun g,
   b_height g = 0%Z ->
   forall evs filter e,
-  run_ok shf gap maxun (rinit g) evs ->
-  let s := rrun shf gap maxun g evs in
+  run_ok shf fx gap maxun (rinit g) evs ->
+  let s := rrun shf fx gap maxun g evs in
   In e (listing filter (w_recs (r_wal s))) ->
   ae_used e = if ae_stk e then pays_form (r_chain s) true (ae_sh e) else pays_any (r_chain s) (ae_sh e).
 Proof. exact used_flag_run. Qed.
 Print Assumptions C12_used_flag.
 
 (* the same, record by record, for every address of the keystore and both forms *)
-Theorem C12_used_flag_record : forall shf, injective2 shf -> forall gap maxun g,
+Theorem C12_used_flag_record : forall shf, injective2 shf -> forall fx gap maxun g,
   b_height g = 0%Z ->
   forall evs stk sh,
-  run_ok shf gap maxun (rinit g) evs ->
-  let s := rrun shf gap maxun g evs in
+  run_ok shf fx gap maxun (rinit g) evs ->
+  let s := rrun shf fx gap maxun g evs in
   mine_of shf (w_ks (r_wal s)) sh = true ->
   rec_used (w_recs (r_wal s)) stk sh = pays_form (r_chain s) stk sh.
 Proof. exact used_flag_rec_run. Qed.
@@ -130,42 +130,56 @@ Print Assumptions C12_used_flag_from.
 (* the exact condition under which a request is refused with "gap limit": the wallet holds at
    least gap addresses and none of the last gap child numbers shows chain history — judged through
    the index map (keyed by child number only); every other request succeeds at the next index *)
-Theorem C12_gap_refusal_index : forall gap used st,
+Theorem C12_gap_refusal_index : forall fx gap used st,
   ks_next_e st < max_addresses ->
-  (next_addresses gap used st = KErr EGapLimit <->
+  (next_addresses fx gap used st = KErr EGapLimit <->
    gap = 0 \/ (gap <= ks_next_e st /\
-               forall j, ks_next_e st - gap <= j -> j < ks_next_e st -> idx_used (ks_index st) used j = false)) /\
-  (next_addresses gap used st <> KErr EGapLimit -> exists st', next_addresses gap used st = KOk (ks_next_e st, st')).
+               forall j, ks_next_e st - gap <= j -> j < ks_next_e st -> idx_used fx (ks_index st) used j = false)) /\
+  (next_addresses fx gap used st <> KErr EGapLimit -> exists st', next_addresses fx gap used st = KOk (ks_next_e st, st')).
 Proof. exact gap_refusal_index. Qed.
 Print Assumptions C12_gap_refusal_index.
 
-(* for a keystore without internal-branch addresses this is the property's rule *)
-Theorem C12_gap_refusal : forall gap used st,
-  ks_next_e st < max_addresses -> index_ext st ->
-  (next_addresses gap used st = KErr EGapLimit <->
+(* this is the property's rule whenever the index map answers "external address" for the child
+   numbers below the counter ([index_good]) ... *)
+Theorem C12_gap_refusal : forall fx gap used st,
+  ks_next_e st < max_addresses -> index_good fx st ->
+  (next_addresses fx gap used st = KErr EGapLimit <->
    gap = 0 \/ spec_refuse gap (used false) (ks_next_e st) = true) /\
-  (next_addresses gap used st <> KErr EGapLimit -> exists st', next_addresses gap used st = KOk (ks_next_e st, st')).
+  (next_addresses fx gap used st <> KErr EGapLimit -> exists st', next_addresses fx gap used st = KOk (ks_next_e st, st')).
 Proof. exact gap_refusal_ext. Qed.
 Print Assumptions C12_gap_refusal.
+
+(* ... which the repaired code (fx = true) guarantees in every reachable state and after every
+   restore, whatever the hints; the code as found only for keystores without internal addresses *)
+Theorem C12_index_good_reachable : forall shf, injective2 shf -> forall fx gap maxun evs s u,
+  Inv shf s -> ExtInv fx s -> run_ok shf fx gap maxun s evs ->
+  (forall cls api node, In (ENew cls api node) evs -> forall j, pays_any node (shf false j) = true -> u j = true) ->
+  gap_inv gap u (ks_next_e (w_ks (r_wal s))) ->
+  ExtInv fx (run_from shf fx gap maxun s evs) /\
+  gap_inv gap u (ks_next_e (w_ks (r_wal (run_from shf fx gap maxun s evs)))).
+Proof. exact run_gap_inv. Qed.
+Print Assumptions C12_index_good_reachable.
 
 Theorem C12_spec_refuse_meaning : forall gap used n,
   spec_refuse gap used n = true <-> gap <= n /\ forall j, n - gap <= j -> j < n -> used j = false.
 Proof. exact spec_refuse_spec. Qed.
 Print Assumptions C12_spec_refuse_meaning.
 
-(* D3: with internal-branch addresses in the keystore (import with an internal hint) the window
-   reads the internal address of the same child number: a request succeeds although the rule refuses *)
+(* D3, FIXED in /repo by 314e4a7: with the code as found (fx = false) and internal-branch addresses
+   in the keystore (import with an internal hint) the window read the internal address of the same
+   child number: a request succeeded although the rule refuses; the repaired code refuses *)
 Theorem C12_index_collision_refuted :
   exists gap used ks i ks',
     ks_restore 20 gap 2 2 used = Some ks /\
     spec_refuse gap (used false) (ks_next_e ks) = true /\
-    next_addresses gap used (ks_reload ks) = KOk (i, ks').
+    next_addresses false gap used (ks_reload ks) = KOk (i, ks') /\
+    next_addresses true gap used (ks_reload ks) = KErr EGapLimit.
 Proof. exact index_collision_refuted. Qed.
 Print Assumptions C12_index_collision_refuted.
 
 (* the API's CreateAddress only adds refusals *)
-Theorem C12_api_only_restricts : forall shf gap maxun used cls w r,
-  api_create_address shf gap maxun used cls w = KOk r -> new_address shf gap used cls w = KOk r.
+Theorem C12_api_only_restricts : forall shf fx gap maxun used cls w r,
+  api_create_address shf fx gap maxun used cls w = KOk r -> new_address shf fx gap used cls w = KOk r.
 Proof. exact api_is_new. Qed.
 Print Assumptions C12_api_only_restricts.
 
@@ -174,12 +188,12 @@ Print Assumptions C12_api_only_restricts.
    when some request was served is still paid), a restore from the mnemonic materialises every
    index that is paid; [fuel] only bounds the model's loop (next theorem) *)
 Theorem C12_discovery_complete : forall shf, injective2 shf ->
-  forall gap maxun g evs cfin hint fuel w',
+  forall fx gap maxun g evs cfin hint fuel w',
   b_height g = 0%Z ->
-  run_ok shf gap maxun (rinit g) evs -> run_mono shf evs cfin ->
+  run_ok shf fx gap maxun (rinit g) evs -> run_mono shf evs cfin ->
   (forall j, pays_any cfin (shf false j) = true -> j + 1 + gap < two32) ->
   wal_restore shf fuel gap hint 0 cfin = Some w' ->
-  forall j, j < ks_next_e (w_ks (r_wal (run_from shf gap maxun (rinit g) evs))) ->
+  forall j, j < ks_next_e (w_ks (r_wal (run_from shf fx gap maxun (rinit g) evs))) ->
             pays_any cfin (shf false j) = true ->
             In (false, j) (ks_pubs (w_ks w')).
 Proof. exact discovery_complete. Qed.
@@ -205,11 +219,11 @@ Print Assumptions C12_issuing_keeps_gap_invariant.
 Theorem C12_discovery_refuted_under_reorg :
   exists gap evs cfin hint fuel w' j,
     2 <= gap /\ b_height wg = 0%Z /\
-    run_ok shf0 gap 1 (rinit wg) evs /\
-    r_chain (run_from shf0 gap 1 (rinit wg) evs) = cfin /\
+    run_ok shf0 true gap 1 (rinit wg) evs /\
+    r_chain (run_from shf0 true gap 1 (rinit wg) evs) = cfin /\
     (forall i, pays_any cfin (shf0 false i) = true -> i + 1 + gap < two32) /\
     wal_restore shf0 fuel gap hint 0 cfin = Some w' /\
-    j < ks_next_e (w_ks (r_wal (run_from shf0 gap 1 (rinit wg) evs))) /\
+    j < ks_next_e (w_ks (r_wal (run_from shf0 true gap 1 (rinit wg) evs))) /\
     pays_any cfin (shf0 false j) = true /\
     ~ In (false, j) (ks_pubs (w_ks w')) /\
     ~ run_mono shf0 evs cfin.
@@ -226,16 +240,16 @@ Print Assumptions C12_wf_chain_heights.
 Example C12_ex_injective : injective2 shf0.
 Proof. exact shf0_inj. Qed.
 Example C12_ex_history :
-  run_ok shf0 2 1 (rinit wg) we_evs /\
-  r_issued (run_from shf0 2 1 (rinit wg) we_evs) = [(false, 3); (false, 2); (true, 1); (false, 0)].
+  run_ok shf0 true 2 1 (rinit wg) we_evs /\
+  r_issued (run_from shf0 true 2 1 (rinit wg) we_evs) = [(false, 3); (false, 2); (true, 1); (false, 0)].
 Proof. exact run_ok_example. Qed.
 Example C12_ex_hint_2_finds_it :
   exists w', wal_restore shf0 20 2 2 0 wd_fin = Some w' /\ In (false, 3) (ks_pubs (w_ks w')).
 Proof. exact discovery_with_hint_2. Qed.
-Example C12_ex_refusal : forall used, next_addresses 2 used
+Example C12_ex_refusal : forall fx used, next_addresses fx 2 used
     {| ks_next_e := 2; ks_next_i := 0; ks_pubs := [(false, 0); (false, 1)]; ks_index := [(1, false); (0, false)] |}
   = if used false 0 || (used false 1 || false) then
       KOk (2, {| ks_next_e := 3; ks_next_i := 0; ks_pubs := [(false, 0); (false, 1); (false, 2)];
                  ks_index := [(2, false); (1, false); (0, false)] |})
     else KErr EGapLimit.
-Proof. intros used. vm_compute. destruct (used false 0); [reflexivity|]. destruct (used false 1); reflexivity. Qed.
+Proof. intros fx used. destruct fx; vm_compute; (destruct (used false 0); [reflexivity|]); destruct (used false 1); reflexivity. Qed.
